@@ -74,3 +74,48 @@ pub fn pretty_print_source_module(
 ) -> String {
   prettier::pretty_print(available_width, source_printer::source_module_to_document(heap, module))
 }
+
+/// Verification hooks (only compiled with `--cfg samlang_verif`): expose the layout engine.
+#[cfg(samlang_verif)]
+pub mod verif {
+  use super::prettier::Document;
+  use std::rc::Rc;
+
+  /// A mirror of the crate-private `Document`, plus `Group` (= `Document::group`).
+  #[derive(Debug, Clone)]
+  pub enum Doc {
+    Nil,
+    Concat(Box<Doc>, Box<Doc>),
+    Nest(usize, Box<Doc>),
+    Text(String),
+    Line,
+    LineFlattenToNil,
+    LineHard,
+    Union(Box<Doc>, Box<Doc>),
+    Group(Box<Doc>),
+    LineComment(String),
+    MultilineComment(bool, String),
+  }
+
+  fn convert(d: &Doc) -> Document {
+    match d {
+      Doc::Nil => Document::Nil,
+      Doc::Concat(a, b) => Document::Concat(Rc::new(convert(a)), Rc::new(convert(b))),
+      Doc::Nest(n, a) => Document::Nest(*n, Rc::new(convert(a))),
+      Doc::Text(s) => Document::non_static_str(s.clone()),
+      Doc::Line => Document::Line,
+      Doc::LineFlattenToNil => Document::LineFlattenToNil,
+      Doc::LineHard => Document::LineHard,
+      Doc::Union(a, b) => Document::Union(Rc::new(convert(a)), Rc::new(convert(b))),
+      Doc::Group(a) => Document::group(convert(a)),
+      Doc::LineComment(text) => Document::line_comment(text),
+      Doc::MultilineComment(is_doc, text) => {
+        Document::multiline_comment(if *is_doc { "/**" } else { "/*" }, text)
+      }
+    }
+  }
+
+  pub fn pretty_print(available_width: usize, doc: &Doc) -> String {
+    super::prettier::pretty_print(available_width, convert(doc))
+  }
+}
